@@ -799,34 +799,32 @@ func (w *Walker) ifStmt(x *ast.IfStmt, f Formula) Formula {
 	w.expr(x.Cond, f)
 	c := w.Cond(x.Cond)
 	in := w.cur
-	w.block(x.Body.List, MkAnd(f, c))
+	thenFacts := w.block(x.Body.List, MkAnd(f, c))
 	thenOut := w.cur
 	thenTerm := w.terminates(x.Body.List)
 	elseTerm := false
 	w.cur = in
+	var elseFacts Formula = MkAnd(f, MkNot(c))
 	if x.Else != nil {
-		w.stmt(x.Else, MkAnd(f, MkNot(c)))
+		elseFacts = w.stmt(x.Else, MkAnd(f, MkNot(c)))
 		elseTerm = w.stmtTerminates(x.Else)
 	}
 	w.cur |= thenOut
-	out := f
 	switch {
 	case thenTerm && !elseTerm:
-		out = MkAnd(f, MkNot(c))
+		// only the else arm (or the implicit empty one) falls through: its exit facts hold
+		return elseFacts
 	case elseTerm && !thenTerm:
-		out = MkAnd(f, c)
+		return thenFacts
 	case thenTerm && elseTerm:
-		out = False{}
+		return False{}
 	}
-	// variables assigned in an arm that falls through get a fresh version;
-	// an arm that leaves the block cannot affect what follows
-	if !thenTerm {
-		w.bumpAssignedIn(x.Body)
-	}
-	if x.Else != nil && !elseTerm {
+	// both arms fall through: variables assigned in either get a fresh version
+	w.bumpAssignedIn(x.Body)
+	if x.Else != nil {
 		w.bumpAssignedIn(x.Else)
 	}
-	return out
+	return f
 }
 
 func (w *Walker) switchStmt(x *ast.SwitchStmt, f Formula) Formula {
